@@ -2620,6 +2620,8 @@ class PiecewiseConvex:
     The PiecewiseConvex class creates an object of piecewise functions.
     """
 
+    __array_priority__ = 101
+
     def __init__(self, model, pieces, sign=1, add_sign=1):
 
         self.model = model
